@@ -13,7 +13,9 @@ THEOREMS = ['Otel.KvIdx.trim3_spec', 'Otel.KvIdx.trim1_spec', 'Otel.KvIdx.splitM
     'fromHeader_toHeader_trailing_space_witness', 'fromHeader_toHeader_comma_in_metadata_witness',
     'toHeader_eq_nil_iff', 'baggage_extract_eq', 'extract_empty_leaves_context', 'extract_installs_parsed', 'baggage_inject_eq',
     'baggage_propagator_roundtrip', 'composite_inject_eq_foldl', 'composite_extract_eq_foldl', 'composite_empty_identity',
-    'composite_append', 'builtin_extract_ok', 'composite_builtin_never_faults')] + ['Otel.Tab.' + t for t in (
+    'composite_append', 'builtin_extract_ok', 'composite_builtin_never_faults',
+    'ofPairs_eq', 'ofPairs_printable', 'fromHeader_toHeader_ofPairs', 'visit_never', 'visit_stops', 'visit_beyond',
+    'fieldsOf_never', 'compositeFields_never', 'compositeFields_false_sticky', 'noop_identity', 'composite_noop_cons')] + ['Otel.Tab.' + t for t in (
     'tab_bgEncode', 'tab_bgDecode1', 'tab_bgDecodePct1', 'tab_bgValidKey1', 'tab_bgValidValue1', 'tab_bgDecodePct_digits', 'tab_bgDecodePct_cross', 'tab_trimDrops', 'tab_trimShort', 'tab_trim3Short', 'tab_kvTokSep', 'tab_kvTokShort')]
 HARNESSES = [Harness('f_c15', ['harness/f_c15.cc'])]
 H = 'f_c15'
@@ -22,7 +24,10 @@ RULE = ('Set/Delete/Get/ToHeader/round-trip sequences over a small key pool with
         'truncated (%4, %) and malformed (%zz) at every position; header sizes 8191/8192/8193, 179/180/181 members, 4095/4096/4097-byte '
         'members; mostly-valid headers with OWS, empty members, missing =, metadata, NUL and >=0x80 bytes, and mutations of them; all 326 '
         'ordered subsets of {HttpTraceContext, B3 single, B3 multi, Jaeger, Baggage} as a composite (installed through the global '
-        'propagator slot): inject, round trip, extract with a different id per header, extract of junk. '
+        'propagator slot): inject, round trip, extract with a different id per header, extract of junk, Fields() with a callback that declines at every position; NoOpPropagator '
+        'as a part and the never-set global propagator; baggages obtained through the container constructor (vector / list / deque / map of '
+        'string or string_view pairs, every byte, 0..400 entries), Baggage(size_t), GetDefault, read back with an early-stopping '
+        'GetAllEntries callback. '
         'non-trivial = a non-empty baggage / header / propagator list is involved; distinct = distinct case line')
 TRUSTED = ['memory safety of the C++ (no out-of-bounds read) is shown by ASan/UBSan runs on exact-size buffers; decode_never_oob / '
            'fromHeader_never_oob are about the index-explicit model of UrlDecode, StringUtil::Trim and KeyValueStringTokenizer::next '
@@ -221,6 +226,64 @@ def gen_sequence(rng, n):
     return 'bg ' + ' ; '.join(ops)
 
 
+MK_VARIANTS = 'vsldm'
+
+
+def gen_mk(rng, n=None):
+    """the container constructor: mostly valid pairs, duplicates, empty / non-printable / NUL-holding keys and values"""
+    n = rng.choice([0, 1, 1, 2, 3, 5, 9]) if n is None else n
+    kvs = []
+    for _ in range(n):
+        k = rng.choice(KEYS) if rng.random() < 0.7 else rand_printable(rng, 0, 6)
+        v = rand_value(rng)
+        if rng.random() < 0.08:
+            k = rng.choice([b'', b'\x00', b'k\x7f', b'\xc3\xa9', b'a\nb', b'k\x00x', b'\x01'])
+        if rng.random() < 0.08:
+            v = rng.choice([b'\x00', b'v\x7f', b'\xff', b'a\tb', b'v\x00x;m', b'v;m\x00x'])
+        kvs.append((k, v))
+    var = rng.choice(MK_VARIANTS)
+    if var == 'm':                                  # a std::map: strictly ascending keys
+        d = {}
+        for k, v in kvs:
+            d.setdefault(k, v)
+        kvs = sorted(d.items())
+    return 'mk ' + var + ''.join(f' {hx(k)} {hx(v)}' for k, v in kvs)
+
+
+def gen_sequence2(rng, n):
+    """histories that start from and mix in the other ways to obtain a baggage (container constructor, Baggage(size_t),
+    GetDefault, FromHeader) and read it back entry by entry with an early-stopping callback"""
+    ops = []; nstates = 1
+    for j in range(n):
+        r = rng.random()
+        i = rng.randrange(nstates) if rng.random() < 0.3 else nstates - 1
+        if j == 0 or r < 0.12:
+            q = rng.random()
+            if q < 0.55:
+                ops.append(gen_mk(rng))
+            elif q < 0.7:
+                ops.append(f'new {rng.choice([0, 1, 2, 7, 180, 181, 1000])}')
+            elif q < 0.85:
+                ops.append('dflt')
+            else:
+                ops.append(f'from {hx(rand_header(rng))}')
+            nstates += 1
+        elif r < 0.4:
+            k = rng.choice(KEYS) if rng.random() < 0.85 else rand_printable(rng, 1, 6)
+            ops.append(f'set {i} {hx(k)} {hx(rand_value(rng))}'); nstates += 1
+        elif r < 0.52:
+            ops.append(f'del {i} {hx(rng.choice(KEYS))}'); nstates += 1
+        elif r < 0.62:
+            ops.append(f'get {i} {hx(rng.choice(KEYS + [b"", b"nope"]))}')
+        elif r < 0.8:
+            ops.append(f'all {i} {rng.choice([0, 1, 1, 2, 3, 4, 6, 10, 200])}')
+        elif r < 0.9:
+            ops.append(f'hdr {i}')
+        else:
+            ops.append(f'rt {i}'); nstates += 1
+    return 'bg ' + ' ; '.join(ops)
+
+
 def rand_member(rng):
     r = rng.random()
     k = pct_encode(rng.choice(KEYS)) if rng.random() < 0.7 else rand_printable(rng, 0, 5)
@@ -289,6 +352,9 @@ def sized_header(n_members, total=None, rng=None):
 
 
 PROPS = ['w3c', 'b3s', 'b3m', 'jg', 'bag']
+# what each propagator announces through Fields(), in its order (W3C Trace Context, B3, Jaeger and W3C Baggage header names)
+FIELDS = {'w3c': [b'traceparent', b'tracestate'], 'b3s': [b'b3'], 'b3m': [b'X-B3-TraceId', b'X-B3-SpanId', b'X-B3-Sampled'],
+          'jg': [b'uber-trace-id'], 'bag': [b'baggage'], 'noop': []}
 ORDERED_SUBSETS = [list(p) for k in range(6) for p in itertools.permutations(PROPS, k)]   # 326, the empty one included
 
 
@@ -314,6 +380,18 @@ def generate(rng, tier):
     # ---- Set/Delete/Get/ToHeader/round-trip histories
     for _ in range(120000 if big else 2500):
         out.append(Case(gen_sequence(rng, rng.randrange(2, 25)), H, ('sequence',)))
+    for _ in range(40000 if big else 900):
+        out.append(Case(gen_sequence2(rng, rng.randrange(2, 16)), H, ('sequence', 'constructors-and-visit')))
+    # ---- the container constructor: every byte in key and value position, every container type; sizes around the limits
+    for b in range(256):
+        c = bytes([b]); var = MK_VARIANTS[b % len(MK_VARIANTS)]
+        out.append(Case(f'bg mk {var} {hx(b"k" + c)} {hx(b"v" + c + b"w")} ; hdr 1 ; rt 1 ; get 1 {hx(b"k" + c)} ; set 1 {hx(b"k" + c)} {hx(b"n")} ; all 3 1',
+                        H, ('alphabet', 'all-bytes-constructor')))
+    for n in (0, 1, 179, 180, 181, 400):
+        for var in MK_VARIANTS:
+            kvs = ''.join(f' {hx(b"k%03d" % i)} {hx(b"v")}' for i in range(n))
+            out.append(Case(f'bg mk {var}{kvs} ; rt 1 ; all 1 {max(n - 1, 0)} ; all 1 {n} ; all 1 {n + 1} ; set 1 {hx(b"k000")} {hx(b"w")} ; del 1 {hx(b"k%03d" % max(n - 1, 0))}',
+                            H, ('limits', 'constructor-member-count')))
     # ---- every printable byte in key position and in value position (and in metadata)
     for b in PRINTABLE:
         c = bytes([b])
@@ -381,7 +459,35 @@ def generate(rng, tier):
         out.append(Case(f'comp inject {pl} {"00" * 16} {"01" * 8} 01 - -', H, ('composite', 'inject-invalid-span')))
         out.append(Case(f'comp extract {pl} {comp_carrier(rng, junk=True)}', H, ('composite', 'extract-junk')))
         out.append(Case(f'comp extract {pl} - - - - - - - -', H, ('composite', 'extract-empty')))
+        # Fields(): every name, and a callback that stops at each position
+        total = sum(len(FIELDS[p]) for p in ps)
+        out.append(Case(f'comp fields {pl} 0', H, ('composite', 'fields')))
+        out.append(Case(f'comp fields {pl} {rng.randrange(1, total + 2)}', H, ('composite', 'fields-stopped')))
+    for ps in [list(p) for k in range(4) for p in itertools.permutations(PROPS, k)][:86]:
+        total = sum(len(FIELDS[p]) for p in ps)
+        for stop in range(1, total + 2):
+            out.append(Case(f'comp fields {",".join(ps) if ps else "-"} {stop}', H, ('composite', 'fields-stopped')))
+    # ---- NoOpPropagator as a part, and the propagator the global slot holds before anything is installed ('@')
+    for _ in range(600 if big else 120):
+        ps = list(rng.choice(ORDERED_SUBSETS))
+        for _k in range(rng.randrange(1, 3)):
+            ps.insert(rng.randrange(len(ps) + 1), 'noop')
+        out += comp_cases(rng, ','.join(ps), 'noop-part')
+    for _ in range(20 if big else 5):
+        out += comp_cases(rng, '@', 'global-default')
     return out
+
+
+def comp_cases(rng, pl, tag):
+    tid = bytes(rng.randrange(1, 256) for _ in range(16)).hex(); sid = bytes(rng.randrange(1, 256) for _ in range(8)).hex()
+    fl = rng.choice(['00', '01', '03', 'ff'])
+    ts = rng.choice([b'', b'a=1', b'v1=x,v2=y'])
+    bag = rng.choice([b'k=v', b'a=1,b=2;m', b'user+id=al%2Cice;p=1', b''])
+    return [Case(f'comp inject {pl} {tid} {sid} {fl} {hx(ts)} {hx(bag)}', H, ('composite', tag, 'inject')),
+            Case(f'comp rt {pl} {tid} {sid} {fl} {hx(ts)} {hx(bag)}', H, ('composite', tag, 'roundtrip')),
+            Case(f'comp extract {pl} {comp_carrier(rng)}', H, ('composite', tag, 'extract')),
+            Case(f'comp extract {pl} {comp_carrier(rng, junk=True)}', H, ('composite', tag, 'extract-junk')),
+            Case(f'comp fields {pl} {rng.choice([0, 0, 1, 2, 3])}', H, ('composite', tag, 'fields'))]
 
 
 # ------------------------------------------------------------------------------------------------ oracle
@@ -454,6 +560,22 @@ def oracle_bg(case, out):
             if got != exp:
                 return ('fromHeader-keeps-exactly-the-valid-members', f'from {t[1][:200]}: got {o[:300]} want {show_entries(exp)[:300]}')
             states.append(exp)
+        elif t[0] == 'mk':
+            kvs = [(unhx(t[j]), unhx(t[j + 1])) for j in range(2, len(t) - 1, 2)]
+            exp = [(cstr(k), cstr(v)) for k, v in kvs]
+            if parse_entries(o) != exp:
+                return ('constructor-keeps-the-given-entries-in-order', f'{op[:200]}: got {o[:300]} want {show_entries(exp)[:300]}')
+            states.append(exp)
+        elif t[0] in ('new', 'dflt'):
+            if o != '[]':
+                return ('new-and-default-baggage-are-empty', f'{op}: got {o[:300]}')
+            states.append([])
+        elif t[0] == 'all':
+            cur, stop = states[int(t[1])], int(t[2])
+            stopped = 1 <= stop <= len(cur)
+            exp = 'seen=' + show_entries(cur[:stop] if stopped else cur) + ' ret=' + ('0' if stopped else '1')
+            if o != exp:
+                return ('getAllEntries-visits-in-order-until-the-callback-declines', f'{op}: got {o[:300]} want {exp[:300]}')
         elif t[0] == 'enc':
             exp = 'e=' + hx(pct_encode(unhx(t[1])))
             if o != exp:
@@ -488,7 +610,7 @@ def oracle_comp(case, out):
     """the composite against its parts applied by hand (both observed on the implementation), plus what C15 itself says about
     the baggage part and the empty composite.  What the individual trace propagators write / accept is C09's and C16's business."""
     t = case.line.split()
-    ps = [] if t[2] == '-' else t[2].split(',')
+    ps = [] if t[2] in ('-', '@') else t[2].split(',')
     if out.startswith('FAULT'):
         return ('decode-never-out-of-bounds', out)
     whole, sep, parts = out.partition(' parts=')
@@ -497,7 +619,19 @@ def oracle_comp(case, out):
     for h in (whole, parts):
         if h.startswith('ERR') or h.startswith('installed-invalid'):
             return ('callers-context-unchanged-or-valid-context', h)
+    if t[1] == 'fields':
+        stop = int(t[3])
+        names = [n for p in ps for n in FIELDS[p]]
+        stopped = 1 <= stop <= len(names)
+        exp = 'f=[' + ','.join(hx(n) for n in (names[:stop] if stopped else names)) + '] ret=' + ('0' if stopped else '1')
+        if whole != parts:
+            return ('composite-fields-asks-every-part-in-order', f'composite {whole[:300]} / parts by hand {parts[:300]}')
+        if whole != exp:
+            return ('fields-are-the-header-names-of-the-parts', f'got {whole[:300]} want {exp[:300]}')
+        return None
     if t[1] == 'inject':
+        if ' extra=' in whole or any(k not in [n for p in ps for n in FIELDS[p]] for k in (parse_carrier(whole) or {})):
+            return ('composite-injects-only-headers-its-parts-announce', whole[:300])
         if whole != parts:
             return ('composite-injects-with-every-part', f'composite {whole[:300]} / parts by hand {parts[:300]}')
         car = parse_carrier(whole)
@@ -551,7 +685,7 @@ def nontrivial(case, out):
     if 'bad-op' in out:
         return False
     if case.line.startswith('comp '):
-        return case.line.split()[2] != '-'
+        return case.line.split()[2] not in ('-', '@')
     return any(tok not in ('-',) for op in case.line[3:].split(' ; ') for tok in op.split()[1:])
 
 
